@@ -90,13 +90,30 @@ func ExecTimed(ex Executor, op string) (string, bool) {
 	}
 	ch := make(chan string, 1)
 	go func() { ch <- ex.Exec(op) }()
-	select {
-	case out := <-ch:
+	if out, ok := waitTicks(ch, OpTimeout); ok {
 		return out, true
-	case <-time.After(OpTimeout):
-		Hung = true
-		return "hang", false
 	}
+	Hung = true
+	return "hang", false
+}
+
+// waitTicks waits for a value on ch for at most d, counted in one-second ticks of this process: a
+// machine that is paused or starved for a minute costs one tick, not sixty, so it is not mistaken
+// for a request that never returns.
+func waitTicks[T any](ch <-chan T, d time.Duration) (T, bool) {
+	var zero T
+	for left := d; left > 0; left -= time.Second {
+		step := time.Second
+		if left < step {
+			step = left
+		}
+		select {
+		case v := <-ch:
+			return v, true
+		case <-time.After(step):
+		}
+	}
+	return zero, false
 }
 
 type base struct {
